@@ -184,7 +184,8 @@ def sites(db, only_functions=None, only_objects=None):
 
 def check_roles(ctx, db, rid, only_functions=None, only_objects=None, floor=1):
     ctx.rule(rid, 'ATOMIC', 'every atomic operation is classified by role (publish >= release, consume >= acquire, publish+consume = acq_rel/seq_cst, '
-             'election/query/init = any) and meets the role\'s minimum order', floor=floor)
+             'election/query/init = any) and meets the role\'s minimum order [scope: %s]' % ('every atomic operation of the library' if only_functions is None and only_objects is None else
+             ', '.join(sorted(x.split('::', 1)[-1] for x in (only_functions or only_objects)))), floor=floor)
     unclassified = []
     for f, e in sites(db, only_functions, only_objects):
         key = (f['nname'], opname(e), objname(e))
